@@ -130,7 +130,7 @@ func genHistory(prop string, seed uint64, index int, tier string) *HScenario {
 		x := or.n(100)
 		v := or.n(nvals)
 		h := or.n(nh)
-		if prop == "C10" && or.p(1, 12) {
+		if (prop == "C10" || prop == "C20") && or.p(1, 12) {
 			x = 99 // more concurrent phases: the pool population is the channel a stale mode travels through
 		}
 		switch {
@@ -416,6 +416,7 @@ func runHistoryT(sc *HScenario, tr *traceReq) *HOutcome {
 	vals := []*liveValue{{re: first, longest: sc.Knobs.Longest, knobs: sc.Knobs}}
 	lh := newHasher()
 	served := map[int]int{} // value -> last haystack index used
+	maxConc := 1
 	fail := func(v HViolation) {
 		if len(out.Violations) < 8 {
 			out.Violations = append(out.Violations, v)
@@ -550,6 +551,18 @@ func runHistoryT(sc *HScenario, tr *traceReq) *HOutcome {
 					out.Diverged++
 				} else if got[j] != want {
 					fail(HViolation{Step: si, Kind: "result", What: fmt.Sprintf("%s, run at the same time as %d other call(s) on the used value, differs from a fresh value", st.Ops[j].API, len(st.Ops)-1), Got: trunc(got[j], 300), Want: trunc(want, 300), Longest: lv.longest})
+				}
+			}
+		}
+		if st.Kind == "conc" && len(st.Ops) > maxConc {
+			maxConc = len(st.Ops)
+		}
+		if sc.Prop == "C20" && (st.Kind == "conc" || si == len(sc.Steps)-1) {
+			// I6: a Regex keeps at most one per-search state per caller it ever had at the
+			// same time (+1 for a callback re-entering it, +1 for the single-slot cache)
+			for vi, lv := range vals {
+				if n := reachableSearchStates(lv.re, lv.re.VerifEngine().VerifLocalState()); n > maxConc+3 {
+					fail(HViolation{Step: si, Kind: "invariant", What: fmt.Sprintf("value %d keeps %d per-search states alive, but never had more than %d simultaneous callers", vi, n, maxConc)})
 				}
 			}
 		}
